@@ -16,6 +16,7 @@ package finisher
 // worker owns the seed it received) are assumed here.
 //@ func (*finisher).worker
 //@   property C01
+//@   attr hooked inputCh,sourceProducedCh,sourceFinishedCh,MarkAsFinished,ReceiveFeedback
 //@   attr assume-pre MarkAsFinished,MarkAsFinished:owns,ReceiveFeedback,ReceiveFeedback:owns
 //@   requires f != nil
 //@   local nRecv int = 0
